@@ -550,6 +550,12 @@ impl Store {
         self.verif.point("commit.pre", Some(frame));
         batch.commit()?;
         self.keyspace.persist(fjall::PersistMode::SyncAll)?;
+
+        // An imported registration must be usable right away, not only after the next open:
+        // the context registry is a function of the stored frames.
+        if frame.topic == "xs.context" && frame.context_id == ZERO_CONTEXT {
+            self.contexts.write().unwrap().insert(frame.id);
+        }
         #[cfg(feature = "verif")]
         self.verif.point("commit.post", Some(frame));
         Ok(())
